@@ -135,6 +135,24 @@ ADD34 = {
  "C20": "a failed write / rename is reported on every path (return values resolved along the path); SetClientConf installs the new configuration by replacing the pointer and never writes into the message kept for the roll-back.",
 }
 
+ADD5 = {
+ "C01": "the configured subnet order is preserved (the only sort is the weight sort) and a generation resolves to its own entry only.",
+ "C02": "track clears Valid on every path to the insertion into the table; the DTLS listener's peer check verifies the presented certificate against the secret-derived key (shared with C16.3).",
+ "C03": "the prefix table is consistent (shared with C04.3); no read lock of the registration table is re-acquired on the connection path (shared with C09.6).",
+ "C04": "the handler gives up (drains) only when nothing is registered for the phantom or no transport is left; the candidate registrations are computed from the live table on every call (shared with C08.6).",
+ "C06": "the policy lists are written only by the configuration parser, one append per parsed entry (shared with C19.6).",
+ "C07": "the share request is one HTTP request, outside any loop.",
+ "C08": "the used mark is unconditional.",
+ "C09": "a validated delivery always passes TrackRegistration; a per-phantom map is dropped only under an emptiness test made at that moment.",
+ "C11": "slice-to-array conversions count as bound candidates; a method is invoked on an element of an interface-valued map only when the lookup found it.",
+ "C12": "the forwarded bytes are storage of this request (MarshalAppend only onto nil / a local); the stored override subnet is net.ParseCIDR's masked network.",
+ "C13": "the result of a selection is never parked in processor state; ReloadSubnets neither calls out nor waits on a channel while it holds the write lock.",
+ "C15": "TryReveal (and helpers handed the ciphertext) never writes into its input, crypto destination arguments included; a reader parsed with binary.Read / io.ReadFull is never asked for a sized field with a single Read.",
+ "C16": "every hand-over to the reader is behind the heartbeat filter; the channel registered for a secret is made for that registration.",
+ "C18": "conditions of the lookup other than presence and age are free atoms of the truth table: an answer that depends on one is a violation.",
+ "C19": "every admitted covert passed the subnet lists and the domain patterns (shared with C06.1).",
+}
+
 ALL = ["C%02d" % i for i in range(1, 21)]
 
 def main():
@@ -149,7 +167,7 @@ def main():
                 "evidence_file": "/verif/evidence/%s.json" % pid,
                 "replay_cmd_template": "cat {path}",
                 "engine": "cjverif",
-                "level_claimed": {"category": "other", "text": ent[2] + (" Further decided (seed rounds 3-4, DESIGN 10.5): " + ADD34[pid] if pid in ADD34 else ""), "design_ref": "DESIGN.md section " + ent[3] + " and 10.2"},
+                "level_claimed": {"category": "other", "text": ent[2] + (" Further decided (seed rounds 3-4, DESIGN 10.5): " + ADD34[pid] if pid in ADD34 else "") + (" Round 5: " + ADD5[pid] if pid in ADD5 else ""), "design_ref": "DESIGN.md section " + ent[3] + " and 10.2"},
                 "level_note": NOTE,
                 "technique": "static analysis: " + ent[1],
             })
@@ -169,7 +187,7 @@ def main():
         "engines": [{
             "name": "cjverif", "path": "/verif/cmd/cjverif",
             "serves_properties": [c["property_id"] for c in checks],
-            "kind_free_text": "repository-specific static analyser over go/packages + go/ssa (guard dominance/reachability, locksets, interprocedural taint, error classes, draw sequences, bounds, predicate tables, constant tables, cross-language rule extraction); engine fixtures run before every check; short-circuit threading, predicate summaries and phase-split queries see through condition forms and helpers; overlay-based mutant corpus, ~520 rename controls, 72 behaviour-preserving refactoring controls and the replay of 160 independently seeded changes keep it honest",
+            "kind_free_text": "repository-specific static analyser over go/packages + go/ssa (guard dominance/reachability, locksets, interprocedural taint, error classes, draw sequences, bounds, predicate tables, constant tables, cross-language rule extraction); engine fixtures run before every check; short-circuit threading, predicate summaries and phase-split queries see through condition forms and helpers; overlay-based mutant corpus, ~520 rename controls, 72 behaviour-preserving refactoring controls and the replay of 200 independently seeded changes keep it honest",
         }],
         "checks": checks,
         "not_applicable": na,
